@@ -75,7 +75,11 @@ func main() {
 			usage()
 		}
 	case "oneshot":
-		runOneshot(os.Stdin)
+		var perm int64
+		if len(os.Args) > 2 {
+			perm, _ = strconv.ParseInt(os.Args[2], 10, 64)
+		}
+		runOneshot(os.Stdin, perm)
 	case "racestress":
 		seed, _ := strconv.ParseInt(os.Args[2], 10, 64)
 		gr, _ := strconv.Atoi(os.Args[3])
